@@ -73,6 +73,30 @@ def directed(rng, tier, idents):
              "exports": [{"name": "deep", "kind": "func", "idx": 0}, {"name": "ping", "kind": "func", "idx": 1}, {"name": "pong", "kind": "func", "idx": 2}]}
         items.append({"id": "reent%d" % N, "module": m,
                       "script": [inst()] + [{"op": "call", "inst": 1, "export": e, "args": [arg("i32", n)]} for e in ("deep", "ping") for n in (0, 1, 2, 5)]})
+    # (b3) a callee is called every time the caller says so: getters of memory / globals called twice with a write in between
+    #      and in a loop; callees that only trap; callees that do nothing
+    m = {"types": [{"p": [], "r": ["i32"]}, {"p": ["i32"], "r": ["i32"]}, {"p": [], "r": []}, {"p": ["i32"], "r": []}],
+         "imports": [{"mod": "env", "name": "poke", "kind": "func", "type": 3, "ret": []}],
+         "globals": [{"t": "i32", "mut": True, "init": ["i32.const", b32(5)]}],
+         "memory": {"min": 1, "max": 1},
+         "funcs": [
+             {"type": 0, "locals": [], "body": [["global.get", 0], ["end"]]},                                                   # 1 getg
+             {"type": 0, "locals": [], "body": [["i32.const", b32(64)], ["i32.load", 2, 0], ["end"]]},                           # 2 getm
+             {"type": 1, "locals": [], "body": [["call", 1], ["local.get", 0], ["global.set", 0], ["call", 1], ["i32.const", b32(1000)], ["i32.mul"], ["i32.add"], ["end"]]},   # 3 twiceg
+             {"type": 1, "locals": [], "body": [["call", 2], ["i32.const", b32(64)], ["local.get", 0], ["i32.store", 2, 0], ["call", 2], ["i32.const", b32(1000)], ["i32.mul"],
+                                                ["i32.add"], ["end"]]},                                                                                                # 4 twicem
+             {"type": 1, "locals": [["i32", 2]], "body": [["loop", ""], ["local.get", 1], ["call", 1], ["i32.add"], ["local.set", 1], ["global.get", 0], ["i32.const", b32(1)], ["i32.add"],
+                                                          ["global.set", 0], ["local.get", 2], ["i32.const", b32(1)], ["i32.add"], ["local.tee", 2], ["local.get", 0], ["i32.lt_u"], ["br_if", 0],
+                                                          ["end"], ["local.get", 1], ["end"]]},                                                                                # 5 loopg
+             {"type": 2, "locals": [], "body": [["unreachable"], ["end"]]},                                                      # 6 abort stub
+             {"type": 2, "locals": [], "body": [["end"]]},                                                                       # 7 empty
+             {"type": 2, "locals": [], "body": [["nop"], ["end"]]},                                                              # 8 nop
+             {"type": 1, "locals": [], "body": [["call", 7], ["call", 8], ["local.get", 0], ["if", ""], ["call", 6], ["end"], ["i32.const", b32(77)], ["end"]]},   # 9 maybe_abort
+             {"type": 1, "locals": [], "body": [["call", 1], ["local.get", 0], ["call", 0], ["call", 1], ["i32.add"], ["end"]]}],   # 10 host call between two reads of the global
+         "exports": [{"name": n_, "kind": "func", "idx": i_} for n_, i_ in (("twiceg", 3), ("twicem", 4), ("loopg", 5), ("maybe_abort", 9), ("hostbetween", 10))]}
+    items.append({"id": "purity", "module": m,
+                  "script": [inst()] + [{"op": "call", "inst": 1, "export": e_, "args": [arg("i32", x_)]}
+                                        for e_, xs_ in (("twiceg", (9, 3)), ("twicem", (7, 8)), ("loopg", (1, 4)), ("maybe_abort", (0, 1, 0)), ("hostbetween", (2,))) for x_ in xs_]})
     # (c) call_indirect with a dynamic index; defined and imported table; element segments with constant and
     #     imported-global offsets; several segments, a later one overwriting an earlier slot; imported function in the table
     for tabk in ("defined", "imported"):
@@ -252,9 +276,10 @@ def main():
         if it["id"] == "names":
             for im in it["module"]["imports"]:
                 im["name"], im["realname"] = im["logname"], im["name"]
-    builds = [{"name": "gcc-O1", "cc": "gcc", "cflags": ("-O1",)}]
+    # optimising builds of both compilers, and one with every function in a file of its own (no inlining across them)
+    builds = [{"name": "gcc-O1", "cc": "gcc", "cflags": ("-O1",)}, {"name": "gcc-O2-f1", "cc": "gcc", "cflags": ("-O2",), "w2c2_opts": ("-m", "-f", "1")}]
     if tier != "quick":
-        builds.append({"name": "clang-O2", "cc": "clang", "cflags": ("-O2",)})
+        builds.append({"name": "clang-O1", "cc": "clang", "cflags": ("-O1",)})
     # the binary must carry the real names: encode with realname
     import wasm_encode
     for it in items:
